@@ -5,7 +5,7 @@
    res = Ok v | Err ENone (Option::None) | Err (E code) | Err EPanic (abort).
    k_total_exact / s_total_exact : the exact I80F48 total liquidity of a Kamino / Solend reserve
    (C20_venue_supply_math_never_aborts_or_wraps shows that the program computes exactly these). *)
-Require Import Base Constants XrateConsts Fixed Xrate FixedLemmas XrateLemmas.
+Require Import Base Constants XrateConsts Fixed Xrate FixedLemmas XrateLemmas ConfScaled.
 Local Open Scope Z_scope.
 
 (* ---------------------------------------------------------------- round trips never gain *)
@@ -267,6 +267,23 @@ Theorem C20_drift_pipeline_le_exact_rate : forall m now pairs, drift_arm m now p
                     snd pp * 10 ^ 10 <= fst pp * dm_cum_interest m) pairs.
 Proof. exact drift_arm_ok. Qed.
 
+(* ---------------------------------------------------------------- the confidence is scaled with the price
+   Collateral is valued at the LOW-biased price (price - 2.12 conf): an adjusted confidence that shrank more than
+   the price would push that value above (price - 2.12 conf) x rate.  Every Pyth arm scales the (spot and EMA)
+   confidence by the same rate as the corresponding price:  conf' * price - conf * price' > - price
+   (i.e. conf'/price' >= conf/price up to the one unit each floor may lose). *)
+Theorem C20_confidence_scaled_with_price : forall f f',
+  ((exists r slot, kamino_pyth r slot f = Ok f') \/ (exists r slot, solend_pyth r slot f = Ok f') \/
+   (exists m now, drift_pyth m now f = Ok f')) ->
+  (0 < py_price f -> 0 <= py_conf f -> py_conf f' * py_price f - py_conf f * py_price f' > - py_price f) /\
+  (0 < py_ema f -> 0 <= py_ema_conf f -> py_ema_conf f' * py_ema f - py_ema_conf f * py_ema f' > - py_ema f).
+Proof.
+  intros f f' [(r & slot & H)|[(r & slot & H)|(m & now & H)]].
+  - exact (kamino_pyth_conf_scaled r slot f f' H).
+  - exact (solend_pyth_conf_scaled r slot f f' H).
+  - exact (drift_pyth_conf_scaled m now f f' H).
+Qed.
+
 (* Non-vacuity: a Kamino reserve (1.05 liquidity per collateral, 6 decimals), a Solend reserve and a Drift market on
    which conversions, round trips and all six adapter arms succeed, and inputs on which they fail closed *)
 Definition ex_k : kreserve := mkKR 1000 600000000000 (450000000000 * 2^60) (1000000 * 2^60) 0 0 6 1000000000000.
@@ -314,3 +331,4 @@ Print Assumptions C20_pipeline_overstatement_bound.
 Print Assumptions C20_pipeline_le_exact_rate_when_scaling_exact.
 Print Assumptions C20_pipeline_le_exact_rate_refuted.
 Print Assumptions C20_drift_pipeline_le_exact_rate.
+Print Assumptions C20_confidence_scaled_with_price.
